@@ -222,6 +222,16 @@ def execute(plan: dict) -> Result:
                                 f"{len(cur_info)} bytes / size {rc.META_FIXED - 8 + len(cur_info)}")
                     break
                 back = back2
+            if f.get("reuse"):
+                # the objects earlier decrypt_metadata calls returned were edited in between: the blob still says what it said
+                try:
+                    again = decrypt_metadata(blob, priv)
+                    bad = [k for k in want if (bytes(getattr(again, k)) if isinstance(want[k], bytes) else int(getattr(again, k))) != want[k]]
+                    if bad:
+                        res.violate(("C06", "redecrypt_differs_after_edit_of_returned_object", ",".join(sorted(bad))),
+                                    f"decrypting the same blob again after the object returned earlier was edited gives different {bad}")
+                except Exception as e:
+                    res.violate(("C06", "decrypt_raised_on_own_blob", type(e).__name__), f"second decrypt_metadata of the same blob raised {e!r}")
             # reference-encoded blob -> library
             if n <= lim:
                 res.probes["ref_to_lib"] += 1
